@@ -451,8 +451,12 @@ impl Ctx {
     /// Count an evaluation that is trivial (no signature).
     pub fn eval_trivial(&mut self) {
         self.evaluations += 1;
+        if self.evaluations & 0x3f == 0 {
+            beat();
+        }
     }
     pub fn evals_n(&mut self, n: u64) {
+        beat();
         self.evaluations += n;
     }
     pub fn sig<T: Hash + ?Sized>(&mut self, sig: &T) {
